@@ -1,0 +1,16 @@
+//go:build verif
+
+package config
+
+// Contracts for the govc verifier (/verif). Comment-only.
+
+// "a numeric or duration zero conventionally means 'use the default'": a non-zero source value is
+// copied to the destination, a zero one leaves it untouched — for every dynamic type the function handles
+//@ func SetIfNotDefault
+//@   property C15
+//@   ensures [int] forall n int, d *int :: src == any(n) && dest == any(d) ==> (n != 0 ==> *d == n) && (n == 0 ==> *d == old(*d))
+//@   ensures [duration] forall n time.Duration, d *time.Duration :: src == any(n) && dest == any(d) ==> (n != 0 ==> *d == n) && (n == 0 ==> *d == old(*d))
+//@   ensures [uint64] forall n uint64, d *uint64 :: src == any(n) && dest == any(d) ==> (n != 0 ==> *d == n) && (n == 0 ==> *d == old(*d))
+//@   ensures [string] forall n string, d *string :: src == any(n) && dest == any(d) ==> (n != "" ==> *d == n) && (n == "" ==> *d == old(*d))
+//@   ensures [bool] forall n bool, d *bool :: src == any(n) && dest == any(d) ==> (n ==> *d) && (!n ==> *d == old(*d))
+//@   modifies heap(int), heap(time.Duration), heap(uint64), heap(string), heap(bool), heap(float64)
